@@ -322,6 +322,23 @@ def _(c, m, x):
 
 
 
+@case("exp-sum-scaled-offset", exact=False)
+def _(c, m, x):
+    e, ev = lin(c, x, 2, "in")
+    r, rv = _rhs(c, x, ())
+    k = _mult(c)
+    # k * sum_i exp(v_i) + 1 <= t: operators applied AFTER sum() keep the summation
+    return k * rsome.exp(e).sum() + 1.0 <= r, ("expsum", ev, lambda xv: (rv(xv) - 1.0) / k)
+
+
+@case("log-sum", exact=False)
+def _(c, m, x):
+    e, ev = lin(c, x, 2, "in")
+    r, rv = _rhs(c, x, ())
+    # t <= sum_i log(v_i)   <=>   exists u: t <= sum u, (u_i, v_i, 1) in K_exp  (exp(u_i) <= v_i)
+    return r <= rsome.log(e).sum(), ("logsum", ev, rv)
+
+
 @case("kldiv with integer reference weights", exact=False)
 def _(c, m, x):
     e, ev = lin(c, x, 2, "in")
@@ -615,6 +632,17 @@ def _written_special(spec, xv, X, F, nuser):
             terms += [p_eq(z1, 1.0), K(v[s], u, 1.0)]
             us.append(u)
         return ("need", p_and(*terms), p_le(sum(us, 0.0), rv(xv)))
+    if kind == "logsum":
+        _, ev, rv = spec
+        v = ev(xv)
+        us, terms = [], []
+        for s in range(len(v)):
+            if s >= len(cones):
+                return False
+            u, b, z1 = (X[i] for i in cones[s])
+            terms += [p_eq(z1, 1.0), K(u, v[s], 1.0)]
+            us.append(u)
+        return ("need", p_and(*terms), p_le(rv(xv), sum(us, 0.0)))
     if kind == "softplus":
         _, ev, rv, k = spec
         v, t = ev(xv), rv(xv)
